@@ -871,6 +871,10 @@ func (s *State) execAppend(call *ssa.Call, args []ssa.Value) ([]*State, bool) {
 		q3 := c.fresh("j")
 		s.assert(fmt.Sprintf("(forall ((%s Int)) (=> (and (<= 0 %s) (< %s (+ %s %s))) (= (select %s (idx 0 %s)) (ite (< %s %s) (select %s (idx (s.off %s) %s)) %s))))",
 			q3, q3, q3, ln, n, An2, q3, q3, ln, Aold, x, q3, srcElem(fmt.Sprintf("(- %s %s)", q3, ln))))
+		// the same over absolute positions of the new array
+		q4 := c.fresh("p")
+		s.assert(fmt.Sprintf("(forall ((%s Int)) (! (=> (and (<= 0 %s) (< %s (+ %s %s))) (= (select %s %s) (ite (< %s %s) (select %s (+ (s.off %s) %s)) %s))) :pattern ((select %s %s))))",
+			q4, q4, q4, ln, n, An2, q4, q4, ln, Aold, x, q4, srcElem(fmt.Sprintf("(- %s %s)", q4, ln)), An2, q4))
 		Afit, Anew = Af, An2
 	}
 	// two paths: the append fits into the capacity (in place, visible through every alias of the backing
